@@ -558,6 +558,14 @@ def points(ctx):
         pts.append(dict(q, transform=TRANSF[0], order="swapped", nfiles=2,
                         t_offset=0.0, n_to_align=-1, project=None,
                         export="tum", t_max_diff=0.01))
+    # ... x a number of poses to align that lies between their sizes
+    for q in lattice.product([("order", [None, "swapped"]),
+                              ("align", ["a", "s", "as", "s+origin"]),
+                              ("n_to_align", [3, 4, 7, -1]),
+                              ("t_max_diff", [0.01, 0.3])]):
+        pts.append(dict(q, transform=TRANSF[0], nfiles=2, downsample=None,
+                        motion_filter=None, merge=False, t_offset=0.0,
+                        project=None, export="tum"))
     # + the same files with epoch-sized timestamps (1.5e9 s) x every use of
     # the reference
     for q in lattice.product([("nfiles", [1, 2]), ("align", ALIGN),
